@@ -110,7 +110,7 @@ def wr_seq(labels):
             wr("VerifWrSeq", {"setting": 6}, {"K": 2, "W": 16, "HUGE": 1, "HUGESZ": 32950, "BIGEXACT": 0, "FAR": 0}, labels, ["close", "flush", "huge"], tiers=["thorough"]),
             wr("VerifWrSeq", {"setting": 5}, {"K": 2, "W": 16, "HUGE": 1, "HUGESZ": 32767, "BIGEXACT": 0, "FAR": 0}, labels, ["close", "flush", "huge"], tiers=["thorough"]),
             wr("VerifWrSeq", {"setting": 6}, {"K": 3, "W": 16, "HUGE": 0, "HUGESZ": 0, "BIGEXACT": 0, "FAR": 0}, labels, ["close", "flush"], thorough={"K": 4}),
-            wr("VerifWrSeq", {"setting": 0}, {"K": 2, "W": 16, "HUGE": 0, "HUGESZ": 0, "BIGEXACT": 0, "FAR": 0}, labels, ["close", "flush"], thorough={"K": 3}),
+            wr("VerifWrSeq", {"setting": 0}, {"K": 3, "W": 16, "HUGE": 0, "HUGESZ": 0, "BIGEXACT": 0, "FAR": 0}, labels, ["close", "flush"]),
             wr("VerifWrSeq", {"setting": 3}, {"K": 2, "W": 16, "HUGE": 0, "HUGESZ": 0, "BIGEXACT": 0, "FAR": 0}, labels, ["close", "flush"], thorough={"K": 3}),
             wr("VerifWrSeq", {"setting": 0}, {"K": 2, "W": 16, "HUGE": 0, "HUGESZ": 0, "BIGEXACT": 1, "FAR": 0}, labels, ["close", "flush"], thorough={"K": 3}),
             wr("VerifWrSeq", {"setting": 5}, {"K": 3, "W": 16, "HUGE": 0, "HUGESZ": 0, "BIGEXACT": 1, "FAR": 0}, labels, ["close", "flush"]),
@@ -133,7 +133,7 @@ def kernels(labels, which):
         runs += [wr("VerifKEncToken", {"match": m, "lc": lc, "dc": dc, "idx": ix}, {}, labels, ["ran"])
                  for (m, lc, dc, ix) in [(1, 3, 2, 1), (1, 0, 0, 2), (0, 2, 0, 0), (1, 1, 1, 0)]]
         runs += [wr("VerifKEncToken", {"match": m, "lc": lc, "dc": dc, "idx": ix}, {}, labels, ["ran"], tiers=["thorough"])
-                 for m in (0, 1) for lc in range(4) for dc in range(3) for ix in range(3)]
+                 for m in (0, 1) for lc in range(4) for dc in range(3) for ix in range(3) if not (m == 0 and (lc == 3 or dc != 0))]
     if "lz77" in which:
         runs += [wr("VerifKLz77Step", {"level": lv, "window": wn, "flush": fl}, {"B": b, "OFF": off}, labels, ["literal", "match"], thorough={"B": b + 8})
                  for (lv, wn, fl, b, off) in [(0, 2, 0, 24, 8), (1, 2, 1, 24, 9), (0, 0, 0, 24, 10), (1, 1, 1, 28, 10), (0, 1, 1, 24, 3)]]
@@ -229,7 +229,7 @@ CHECKS["C15"]["runs"] += [gz("VerifZlFail", {"with": w, "buf": b}, {}, ["C15:"],
 CHECKS["C18"] = {
     "level": "model_checking",
     "runs": [dict(rd(c, n, M=16, labels=["C18:"], covers=["ran"], harness="VerifAsmDiff"), tags="verif", native_configs=[["verif", None]], maxdec=4000) for (c, n) in [(0, 2), (1, 2), (2, 1), (3, 1)]] +
-            [dict(rd(c, n, M=16, labels=["C18:"], covers=["ran"], harness="VerifAsmDiff", tiers=["thorough"]), tags="verif", native_configs=[["verif", None]], maxdec=4000) for (c, n) in [(2, 2), (0, 3), (3, 2)]] +
+            [dict(rd(c, n, M=16, labels=["C18:"], covers=["ran"], harness="VerifAsmDiff", tiers=["thorough"]), tags="verif", native_configs=[["verif", None]], maxdec=4000, maxconc=1500) for (c, n) in [(2, 2), (3, 2)]] +
             [dict(rd(4, 2, M=24, K=k, labels=["C18:"], covers=["ran"], harness="VerifAsmDiff", tiers=tiers, extra={"TAILLO": lo, "TAIL": hi}), tags="verif", native_configs=[["verif", None]], maxdec=4000)
              for (k, lo, hi, tiers) in [(2, 9, 11, ["quick"]), (2, 0, 24, ["thorough"]), (1, 0, 24, ["thorough"]), (5, 0, 24, ["thorough"])]],
     "assumptions": ["decode direction only: decodeHuffmanAsmArchV3 is executed from the current decode_amd64.s by asmsym (engine/asm.go: 33 mnemonics, flags as last compare/result, memory operands through the byte-granular heap so that displacements are reads of the Go struct layout); the AVX2/AVX-512 encoders and the LZ77 assembly are outside",
